@@ -3,26 +3,26 @@
    M = Model/Iso6937.v, Model/StlTf.v, Model/StlDatafile.v (transcriptions of ttconv/stl/{iso6937,tf,datafile,reader}.py
    over tables regenerated from the source) and Model/TimeCode.v (C12); S = Spec/Ebu3264Spec.v (Tech 3264 interpreter,
    ISO 6937 repertoire derived from Unicode data, ISO 8859-5/6/7/8, SMPTE 12M counts) and Spec/Smpte12M.v.
-   Triggers of the recorded findings: Model/StlTriggers.v; their refutations: Findings/C09.v.
+   The observation relation between M's document and S's presentation and the trigger of the one recorded finding
+   (df-23976): Model/StlTriggers.v; its refutation: Findings/C09.v.
    Finite domains (bytes, pairs of bytes) are decided in the kernel with the bound in the statement; everything else is
-   for all inputs.  NOT proved (compared on every run instead, harness/c09.py): that the whole-file pipeline
-   reader_model (GSI decoding, EBN grouping, cumulative sets, divisions per SGN) equals S's `presentation`. *)
+   for all inputs.  The whole-file pipeline (GSI decoding, 128-byte blocks, skipping, extension chains, cumulative sets,
+   divisions per SGN, region sharing) is C09_file_partial / C09_blocks below. *)
 From Coq Require Import QArith.
 From TT Require Import Base.Prelude Gen.StlTables Model.TimeCode Model.Iso6937 Model.StlTf Model.StlDatafile Model.StlTriggers.
 From TT Require Import Spec.Smpte12M Spec.Ebu3264Spec.
-From TT Require Import Proofs.C09.Tables Proofs.C09.TextField Proofs.C09.Text Proofs.C09.Times Proofs.C09.Datafile.
+From TT Require Import Proofs.C09.Tables Proofs.C09.TextField Proofs.C09.Text Proofs.C09.Times Proofs.C09.Datafile Proofs.C09.File.
 Open Scope Z_scope.
 
 (* ---- character code tables ---------------------------------------------------------------------------------- *)
 (* ISO 6937: every single byte and every pair of bytes decode as in the standard (all 156 diacritic + letter
-   compositions, the spacing forms, one U+FFFD for anything else) — outside finding iso6937-a4 (byte 0xA4) *)
-Theorem C09_iso6937_single_partial : forall b, 0 <= b < 256 -> b <> 164 -> decode6937 [b] = decode_iso6937 [b].
+   compositions, the spacing forms, one U+FFFD for anything else); byte 0xA4 included since the repair of iso6937-a4 *)
+Theorem C09_iso6937_single : forall b, 0 <= b < 256 -> decode6937 [b] = decode_iso6937 [b].
 Proof. exact iso6937_single. Qed.
-Theorem C09_iso6937_pair_partial : forall b1 b2, 0 <= b1 < 256 -> 0 <= b2 < 256 -> trigger_a4 [b1; b2] = false ->
-  decode6937 [b1; b2] = decode_iso6937 [b1; b2].
+Theorem C09_iso6937_pair : forall b1 b2, 0 <= b1 < 256 -> 0 <= b2 < 256 -> decode6937 [b1; b2] = decode_iso6937 [b1; b2].
 Proof. exact iso6937_pair. Qed.
 (* ... and so do byte strings of any length *)
-Theorem C09_iso6937_partial : forall bs, Forall is_byte bs -> trigger_a4 bs = false -> decode6937 bs = decode_iso6937 bs.
+Theorem C09_iso6937 : forall bs, Forall is_byte bs -> decode6937 bs = decode_iso6937 bs.
 Proof. exact iso6937_list. Qed.
 (* CPython's iso8859_5..8 codecs (as regenerated tables) are the standard's tables *)
 Theorem C09_iso8859 : forall b, is_byte b ->
@@ -30,8 +30,7 @@ Theorem C09_iso8859 : forall b, is_byte b ->
   nth (Z.to_nat b) iso8859_7_table fffd = iso8859_7 b /\ nth (Z.to_nat b) iso8859_8_table fffd = iso8859_8 b.
 Proof. exact iso8859_tables. Qed.
 (* the decoder selected by the CCT field, on any byte string *)
-Theorem C09_decoder_partial : forall cct bs, Forall is_byte bs -> trigger_a4_cct cct bs = false ->
-  decoder_of_cct cct bs = decoder_spec cct bs.
+Theorem C09_decoder : forall cct bs, Forall is_byte bs -> decoder_of_cct cct bs = decoder_spec cct bs.
 Proof. exact decoder_agrees. Qed.
 
 (* ---- text field -------------------------------------------------------------------------------------------------- *)
@@ -39,18 +38,17 @@ Proof. exact decoder_agrees. Qed.
 Theorem C09_classifiers : forall b, 0 <= b < 256 -> class_mask b = nth (Z.to_nat b) tf_class_table (-1).
 Proof. exact classifiers_are_source. Qed.
 (* the one-pass machine of tf.to_model = the staged Tech 3264 interpretation, for every list of integers, both
-   teletext and open, any decoder — outside finding blank-row-dropped.
-   Full statement (false, see Findings/C09.v C09_tf_refuted):  forall dec tele bs, map piece_of_leaf (tf_model dec tele bs) = tf_spec dec tele bs *)
-Theorem C09_tf_partial : forall dec tele bs, trigger_blank_row bs = false ->
-  map piece_of_leaf (tf_model dec tele bs) = tf_spec dec tele bs.
+   teletext and open, any decoder (full strength since the repair of blank-row-dropped) *)
+Theorem C09_tf : forall dec tele bs, map piece_of_leaf (tf_model dec tele bs) = tf_spec dec tele bs.
 Proof. exact tf_refines. Qed.
 (* text, line breaks, colours, italics, underline of a text field under the declared character code table *)
-Theorem C09_text_partial : forall cct tele bs, Forall is_byte bs -> trigger_blank_row bs = false -> trigger_a4_cct cct bs = false ->
+Theorem C09_text : forall cct tele bs, Forall is_byte bs ->
   map piece_of_leaf (tf_model (decoder_of_cct cct) tele bs) = tf_spec (decoder_spec cct) tele bs.
-Proof. exact text_partial. Qed.
-(* "up to the first unused-space byte": bytes.strip(b'\x8f') is the cut, outside finding tf-strip-not-cut *)
-Theorem C09_strip_partial : forall tf, trigger_strip tf = false -> strip_8f tf = text_of_field tf.
-Proof. exact strip_is_cut. Qed.
+Proof. exact text_full. Qed.
+(* "up to the first unused-space byte": TF.partition(b'\x8f')[0] is the cut, for every field (since the repair of
+   tf-strip-not-cut) *)
+Theorem C09_cut : forall tf, before_8f tf = text_of_field tf.
+Proof. exact cut_is_cut. Qed.
 
 (* ---- times ------------------------------------------------------------------------------------------------------- *)
 (* the code's DFC table names the rates of S *)
@@ -72,21 +70,30 @@ Theorem C09_offset_2997 : forall l, offset_q r2997 l = time_of (mkFR 30000 1001 
 (* 24000/1001: only within the first minute (finding df-23976) *)
 Theorem C09_offset_23976_partial : forall l, beyond_first_minute l = false -> offset_q r23976 l = time_of (mkFR 24000 1001 24 0) l.
 Proof. exact offset23976_partial. Qed.
+(* whatever the DFC: the rate the reader selects converts every label as S's rate does (24000/1001: first minute) *)
+Theorem C09_rates_partial : forall dfc r, dfc_rate dfc = Some r ->
+  exists n d, map_get_bytes dfc_fraction_map dfc = Some (n, d) /\
+              forall l, is_stl23 dfc && beyond_first_minute l = false -> offset_q (mkRate n d) l = time_of r l.
+Proof. exact rates. Qed.
 
 (* ---- vertical position ------------------------------------------------------------------------------------------- *)
-(* rows needed = S's rows_occupied; the region is S's top-anchored region of row VP (VP < max_rows // 2) or S's
-   bottom-anchored region of the last row *)
+(* rows needed = S's rows_occupied; the region is S's top-anchored region of the first row (VP; row 1 for VP = 0) when
+   that is < max_rows // 2, or S's bottom-anchored region of the last row *)
 Theorem C09_rows : forall tf, line_count tf (has_double_height_char tf) * (if has_double_height_char tf then 2 else 1) = rows_occupied tf.
 Proof. exact rows_agree. Qed.
 Theorem C09_region : forall max_rows vp tf r, region_for max_rows vp tf (has_double_height_char tf) = Some r ->
-  (vp < max_rows / 2 /\ rect_equiv (rect_of r) (top_anchored max_rows vp)) \/
-  (max_rows / 2 <= vp /\ rect_equiv (rect_of r) (bottom_anchored max_rows (vp + rows_occupied tf - 1))).
+  (first_row vp < max_rows / 2 /\ rect_equiv (rect_of r) (top_anchored max_rows (first_row vp))) \/
+  (max_rows / 2 <= first_row vp /\ rect_equiv (rect_of r) (bottom_anchored max_rows (first_row vp + rows_occupied tf - 1))).
 Proof. exact region_choice. Qed.
-(* both lie inside the safe area when the rows of the subtitle lie inside the grid; VP = 0 is finding vp-zero-above-safe-area *)
 Theorem C09_region_top_inside : forall rows vp, 0 < rows -> 1 <= vp <= rows + 1 -> inside_safe_area (top_anchored rows vp).
 Proof. exact top_inside. Qed.
 Theorem C09_region_bottom_inside : forall rows last, 0 < rows -> 0 <= last <= rows -> inside_safe_area (bottom_anchored rows last).
 Proof. exact bottom_inside. Qed.
+(* the region the reader computes lies inside the safe area whenever the rows of the subtitle fit the grid - for every
+   VP, 0 included (since the repair of vp-zero-above-safe-area) *)
+Theorem C09_region_inside : forall rows vp tf r, 0 < rows -> region_for rows vp tf (has_double_height_char tf) = Some r ->
+  first_row vp + rows_occupied tf - 1 <= rows -> inside_safe_area (rect_of r).
+Proof. exact region_inside. Qed.
 
 (* ---- subtitle numbers -------------------------------------------------------------------------------------------- *)
 (* subtitle numbers are compared by value (repaired by 434048d; formerly finding sn-identity): a block opens a new
@@ -94,25 +101,24 @@ Proof. exact bottom_inside. Qed.
 Theorem C09_sn_value : forall sn last, sn_differs sn last = true <-> last <> Some sn.
 Proof. exact sn_value. Qed.
 
-(* ---- grouping and the single subtitle (stretch; statements about process_tti, the per-block step of the reader) ---- *)
-(* extension blocks are concatenated and user-data/reserved blocks skipped: after any run of non-terminal and skipped
-   blocks, the field the terminal block is decoded from is the concatenation of the texts of the text-carrying blocks,
-   as Tech 3264 cuts them (outside finding tf-strip-not-cut) *)
-Theorem C09_grouping_partial : forall f ts s t, st_in_ext s = false -> Forall ext_or_skip ts -> text_block t = true ->
-  Forall (fun x => trigger_strip (t_tf x) = false) (filter text_block (ts ++ [t])) ->
+(* ---- grouping and the single subtitle (process_tti / complete_subtitle, the per-block steps of the reader) --------- *)
+(* extension blocks are concatenated and user-data/reserved/comment blocks skipped: after any run of non-terminal and
+   skipped blocks, the terminal block is completed with the concatenation of the texts of the text-carrying blocks, as
+   Tech 3264 cuts them *)
+Theorem C09_grouping : forall f ts s t, st_in_ext s = false -> Forall ext_or_skip ts -> text_block t = true -> t_ebn t = 255 ->
   exists s', fold_blocks f s ts = inl s' /\
-             fst (block_view f s' t) = concat (map (fun x => text_of_field (t_tf x)) (filter text_block (ts ++ [t]))).
-Proof. exact grouping_partial. Qed.
+             process_tti f s' t =
+             complete_subtitle f s' t (concat (map (fun x => text_of_field (t_tf x)) (filter text_block (ts ++ [t])))).
+Proof. exact grouping. Qed.
 (* a non-cumulative subtitle with a new number becomes a paragraph visible exactly from TCI to TCO minus the programme
    start, holding the pieces of its text field, aligned by JC, in the region of its VP *)
-Theorem C09_subtitle : forall f s t r,
-  text_block t = true -> t_ebn t = 255 -> t_cs t = 0 -> st_last_sn s <> Some (t_sn t) ->
-  let tf := acc_tf s ++ strip_8f (t_tf t) in
+Theorem C09_subtitle : forall f s t tf r,
+  t_cs t = 0 -> st_last_sn s <> Some (t_sn t) ->
   let b := (offset_q (f_fps f) (t_tci t) - f_start f)%Q in
   let e := (offset_q (f_fps f) (t_tco t) - f_start f)%Q in
   q_neg b = false -> q_lt e b = false ->
   region_for (f_max_rows f) (t_vp t) tf (has_double_height_char tf) = Some r ->
-  exists s', process_tti f s t = inl s' /\
+  exists s', complete_subtitle f s t tf = inl s' /\
     st_cur s' = Some (t_sgn t,
                       mkPara (fst (get_region (st_regions s) r)) (text_align_of (t_jc t))
                              (if f_teletext f && negb (has_double_height_char tf) then default_single_height_font_size_pct
@@ -122,32 +128,91 @@ Theorem C09_subtitle : forall f s t r,
     st_regions s' = snd (get_region (st_regions s) r).
 Proof. exact new_subtitle. Qed.
 (* subtitles that start before the programme start are dropped *)
-Theorem C09_early_dropped : forall f s t,
-  text_block t = true -> t_ebn t = 255 -> q_neg (offset_q (f_fps f) (t_tci t) - f_start f) = true ->
-  exists s', process_tti f s t = inl s' /\ st_divs s' = st_divs s /\ st_cur s' = st_cur s /\
+Theorem C09_early_dropped : forall f s t tf,
+  q_neg (offset_q (f_fps f) (t_tci t) - f_start f) = true ->
+  exists s', complete_subtitle f s t tf = inl s' /\ st_divs s' = st_divs s /\ st_cur s' = st_cur s /\
              st_regions s' = st_regions s /\ st_last_sn s' = st_last_sn s /\ st_in_ext s' = false.
 Proof. exact early_subtitle_dropped. Qed.
 (* cumulative subtitles accumulate in the open paragraph, each on its own interval *)
-Theorem C09_cumulative : forall f s t sgn p,
-  text_block t = true -> t_ebn t = 255 -> t_cs t = 2 \/ t_cs t = 3 -> st_cur s = Some (sgn, p) ->
-  let tf := acc_tf s ++ strip_8f (t_tf t) in
+Theorem C09_cumulative : forall f s t tf sgn p,
+  t_cs t = 2 \/ t_cs t = 3 -> st_cur s = Some (sgn, p) ->
   let b := (offset_q (f_fps f) (t_tci t) - f_start f)%Q in
   let e := (offset_q (f_fps f) (t_tco t) - f_start f)%Q in
   q_neg b = false -> q_lt e b = false ->
-  exists s', process_tti f s t = inl s' /\
+  exists s', complete_subtitle f s t tf = inl s' /\
     st_cur s' = Some (sgn, mkPara (p_region p) (p_align p) (p_font_size p) (p_line_height p) (p_time p)
                                   (p_items p ++ [PSub b e (tf_model (decoder_of_cct (f_cct f)) (f_teletext f) tf ++
                                                            (if t_cs t =? 2 then [LBr] else []))])) /\
     st_divs s' = st_divs s /\ st_regions s' = st_regions s.
 Proof. exact cumulative_member. Qed.
+(* no block makes the reader fail for want of a paragraph (since the repair of cumulative-before-first), and a whole
+   file fails only on a short GSI/TTI block, an unparsable configured start time code or a row count of zero *)
+Theorem C09_no_attribute_error : forall f s t, process_tti f s t <> inr EAttribute.
+Proof. exact process_no_attribute_error. Qed.
+Theorem C09_reader_errors : forall file cfg e, reader_model file cfg = Err e -> e = EStruct \/ e = EValue \/ e = EZeroDiv.
+Proof. exact reader_errors. Qed.
+
+(* ... and the division by zero needs a row count of zero (C18's stl-zero-row-count) *)
+Theorem C09_reader_zero_div : forall file cfg, reader_model file cfg = Err EZeroDiv ->
+  exists f, init (unpack_gsi (firstn 1024 file)) cfg = inl f /\ f_max_rows f = 0.
+Proof. exact reader_zero_div. Qed.
+
+(* ---- configuration decoders (stl/config.py) -------------------------------------------------------------------------- *)
+(* whatever _decode_start_tc lets through, SmpteTimeCode.parse accepts (no ValueError from DataFile.__init__ after
+   STLReaderConfiguration.parse); the documented forms HH:MM:SS:FF and TCP (any case) are accepted and mean what S reads *)
+Theorem C09_config_start_parses : forall v t, decode_start_tc v = inl (StStr t) -> forall fps, parse_tc t fps <> None.
+Proof. exact decode_start_parses. Qed.
+Theorem C09_config_start_label : forall t l, label_of_text t = Some l ->
+  decode_start_tc (Some t) = inl (StStr t) /\ spec_start (StStr t) = Some (StartLabel l).
+Proof. exact decode_start_label. Qed.
+Theorem C09_config_start_tcp : forall a b c, (a = 84 \/ a = 116) -> (b = 67 \/ b = 99) -> (c = 80 \/ c = 112) ->
+  decode_start_tc (Some [a; b; c]) = inl StTCP.
+Proof. exact decode_start_tcp. Qed.
+
+(* ---- the whole file ---------------------------------------------------------------------------------------------- *)
+(* every list of TTI blocks in the specification's domain, read from the initial state by the reader's per-block step,
+   yields divisions that are the specification's subtitle groups, paragraph by paragraph (same alignment, exactly the
+   same timed parts, a region that is S's top- or bottom-anchored region) - induction over the blocks with the reader's
+   state as invariant *)
+Theorem C09_blocks : forall f r start cct tele rows bl subs ps,
+  f_start f = start -> f_cct f = cct -> f_teletext f = tele -> f_max_rows f = rows -> 1 <= rows ->
+  Forall (fun b => carries_text b = true ->
+                   Forall is_byte (b_tf b) /\ offset_q (f_fps f) (b_tci b) = time_of r (b_tci b) /\
+                   offset_q (f_fps f) (b_tco b) = time_of r (b_tco b)) bl ->
+  subtitles_of bl = Some subs ->
+  paragraphs_go r start (decoder_spec cct) tele subs (-1) [] None = Some ps ->
+  exists s, fold_blocks f state0 (map tti_of bl) = inl s /\
+            Forall2 (Forall2 (para_matches rows (st_regions s))) (map snd (commit s)) (by_group ps).
+Proof. exact blocks_presentation. Qed.
+(* every file of bytes in the specification's domain, every reader configuration, outside finding df-23976: the reader
+   returns a document whose divisions are S's presentation of the file.
+   Full statement (false at 24000/1001 beyond the first minute, Findings/C09.v): the same without the trigger hypothesis *)
+Theorem C09_file_partial : forall file cfg sc groups rows,
+  Forall is_byte file -> spec_start (cf_start cfg) = Some sc ->
+  presentation file sc (spec_rows (cf_rows cfg)) = Some (groups, rows) ->
+  trigger_23976 file cfg = false ->
+  exists d, reader_model file cfg = Ok d /\ doc_matches rows d groups.
+Proof. exact file_presentation. Qed.
 
 (* non-vacuity *)
 Example C09_example_tf :
   map piece_of_leaf (tf_model decode6937 true [13; 3; 200; 97; 32; 98; 138; 138; 128; 99; 143; 100]) =
   [Run (mkAttrs 4294902015 255 false false) [228; 32; 98]; Break; Run (mkAttrs 4294967295 255 true false) [99]].
 Proof. vm_compute. reflexivity. Qed.
-(* the inputs of the three repaired defects (9e84fe8, 41b1329, 434048d) are now read as the specification prescribes:
-   invalid TCP -> no shift, invalid MNR -> 23 rows, a repeated subtitle number above 256 re-uses the paragraph *)
+(* the hypotheses of C09_file_partial are satisfiable: a file with a cumulative set, a coloured two-row subtitle at VP 0
+   and a comment block is in the domain, two paragraphs are prescribed and the trigger is off *)
+Example C09_example_file :
+  Forall is_byte example_file /\ spec_start (cf_start cfg0) = Some StartNone /\
+  (exists groups, presentation example_file StartNone (spec_rows (cf_rows cfg0)) = Some (groups, 23) /\ length (concat groups) = 2%nat) /\
+  trigger_23976 example_file cfg0 = false /\ paragraphs_of (reader_model example_file cfg0) = 2.
+Proof.
+  split; [exact example_file_bytes|]. split; [reflexivity|]. split; [eexists; split; vm_compute; reflexivity|].
+  split; vm_compute; reflexivity.
+Qed.
+(* the inputs of the repaired defects are now read as the specification prescribes:
+   invalid TCP -> no shift, invalid MNR -> 23 rows, a repeated subtitle number above 256 re-uses the paragraph (9e84fe8,
+   41b1329, 434048d); an intermediate cumulative member as first block opens a paragraph, TNB = 0 is harmless, a comment
+   block is not presented, 0xA4 is the dollar sign, an empty row is kept, text after an unused-space byte is not presented *)
 Example C09_example_tcp_fallback :
   paragraphs_of (reader_model (put 256 [48; 48; 48; 48; 88; 88; 48; 48] witness_gsi ++ witness_tti 0 1 2 20 0 0 [65])
                               (mkConfig StTCP MrNone false false None)) = 1.
@@ -160,16 +225,29 @@ Example C09_example_sn_by_value :
   paragraphs_of (reader_model (witness_gsi ++ witness_tti 300 1 2 20 0 0 [65] ++ witness_tti 300 3 4 20 0 0 [66]) cfg0) = 1 /\
   paragraphs_of (reader_model (witness_gsi ++ witness_tti 5 1 2 20 0 0 [65] ++ witness_tti 5 3 4 20 0 0 [66]) cfg0) = 1.
 Proof. vm_compute. split; reflexivity. Qed.
+Example C09_example_repaired :
+  paragraphs_of (reader_model (witness_gsi ++ witness_tti 0 1 2 20 2 0 [65]) cfg0) = 1 /\
+  paragraphs_of (reader_model (put 238 [48; 48; 48; 48; 48] witness_gsi ++ witness_tti 0 1 2 20 0 0 [65]) cfg0) = 1 /\
+  paragraphs_of (reader_model (witness_gsi ++ witness_tti 0 1 2 20 0 1 [65]) cfg0) = 0 /\
+  decode6937 [164] = [36] /\
+  map piece_of_leaf (tf_model (fun x => x) true [65; 138; 138; 66]) = tf_spec (fun x => x) true [65; 138; 138; 66] /\
+  before_8f [143; 65; 66] = [].
+Proof. vm_compute. repeat split; reflexivity. Qed.
 Example C09_example_region : region_for 23 20 [65; 138; 66] false = Some (mkRegion (qz 5) (qz 10) (qz 90) (qz 21 / qz 23 * qz 80)%Q true).
 Proof. reflexivity. Qed.
 
-Print Assumptions C09_iso6937_single_partial.  Print Assumptions C09_iso6937_pair_partial.  Print Assumptions C09_iso6937_partial.
-Print Assumptions C09_iso8859.  Print Assumptions C09_decoder_partial.  Print Assumptions C09_classifiers.
-Print Assumptions C09_tf_partial.  Print Assumptions C09_text_partial.  Print Assumptions C09_strip_partial.
+Print Assumptions C09_iso6937_single.  Print Assumptions C09_iso6937_pair.  Print Assumptions C09_iso6937.
+Print Assumptions C09_iso8859.  Print Assumptions C09_decoder.  Print Assumptions C09_classifiers.
+Print Assumptions C09_tf.  Print Assumptions C09_text.  Print Assumptions C09_cut.
 Print Assumptions C09_dfc_rates.
 Print Assumptions C09_times_24.  Print Assumptions C09_times_25.  Print Assumptions C09_times_50.  Print Assumptions C09_times_2997.
 Print Assumptions C09_offset_24.  Print Assumptions C09_offset_25.  Print Assumptions C09_offset_50.  Print Assumptions C09_offset_2997.
-Print Assumptions C09_offset_23976_partial.
+Print Assumptions C09_offset_23976_partial.  Print Assumptions C09_rates_partial.
 Print Assumptions C09_rows.  Print Assumptions C09_region.  Print Assumptions C09_region_top_inside.  Print Assumptions C09_region_bottom_inside.
+Print Assumptions C09_region_inside.
 Print Assumptions C09_sn_value.
-Print Assumptions C09_grouping_partial.  Print Assumptions C09_subtitle.  Print Assumptions C09_early_dropped.  Print Assumptions C09_cumulative.
+Print Assumptions C09_grouping.  Print Assumptions C09_subtitle.  Print Assumptions C09_early_dropped.  Print Assumptions C09_cumulative.
+Print Assumptions C09_no_attribute_error.  Print Assumptions C09_reader_errors.
+Print Assumptions C09_reader_zero_div.
+Print Assumptions C09_config_start_parses.  Print Assumptions C09_config_start_label.  Print Assumptions C09_config_start_tcp.
+Print Assumptions C09_blocks.  Print Assumptions C09_file_partial.
